@@ -64,12 +64,12 @@ impl<'a> Tilemap<'a> {
     /// `-1` for the x coordinate of the top-left tile.
     pub fn tile(&self, x: u32, y: u32) -> &Tile {
         let (ofs_x, ofs_y) = self.tile_offsets();
-        let x = x as i32 - ofs_x;
-        let y = y as i32 - ofs_y;
+        let x = x as i64 - ofs_x as i64;
+        let y = y as i64 - ofs_y as i64;
         // The actual tilemap data may be smaller because it does not include
         // any data for empty tiles on the outer rows or columns.
-        let w = self.tilemap().width() as i32;
-        let h = self.tilemap().height() as i32;
+        let w = self.tilemap().width() as i64;
+        let h = self.tilemap().height() as i64;
         if x < 0 || y < 0 || x >= w || y >= h {
             return &EMPTY_TILE;
         }
